@@ -1,4 +1,4 @@
-(* Executable model of src/Document/Json.cpp (after the four repairs in fixes/C15), decision by
+(* Executable model of src/Document/Json.cpp (after the five repairs in fixes/C15), decision by
    decision.  No proofs in this file.
 
    Text = list of bytes (Z in 1..255) with an implicit NUL terminator: the cursor is the list of
@@ -122,13 +122,14 @@ Fixpoint str_loop (fuel : nat) (line : Z) (r : list Z) (acc : list Z) : res (Z *
                              (utf8_rev (Z.lor (Z.land w2 1023) (Z.shiftl (Z.land w1 1023) 10) + 65536) acc))))
               else str_loop f line r3 (utf8_rev w1 acc)))
         else if e =? 0 then SyntaxErr line r1 E_eof        (* repair 01: backslash before the terminator *)
-        else adv r1 (fun r2 => str_loop f line r2 (e :: 92 :: acc)))
+        else str_loop f line r1 (92 :: acc))    (* repair 05: unknown escape: the backslash is kept, the next byte is
+                                                   read by the loop like any other (a line break is counted) *)
     else if c =? 34 then adv r (fun r1 => Ok (line, r1, rev acc))
     else adv r (fun r1 => str_loop f line r1 (c :: acc))
   end.
 
 (* ---------- literals: String::compare(pos, lit, n) == 0 (stops at the terminator) ---------- *)
-Fixpoint cmp_lit (r lit : list Z) : bool :=
+Fixpoint cmp_lit (r lit : list Z) {struct lit} : bool :=
   match lit with
   | [] => true
   | c :: lt => match r with
@@ -164,9 +165,10 @@ Definition int64_max := 9223372036854775807.
 Definition clamp64 (z : Z) : Z := if z <? int64_min then int64_min else if int64_max <? z then int64_max else z.
 Definition ref_atoll (n : list Z) : Z :=
   match n with
-  | 45 :: t => clamp64 (- digits_val t 0)
-  | 43 :: t => clamp64 (digits_val t 0)
-  | _ => clamp64 (digits_val n 0)
+  | [] => 0
+  | c :: t => if c =? 45 then clamp64 (- digits_val t 0)
+              else if c =? 43 then clamp64 (digits_val t 0)
+              else clamp64 (digits_val n 0)
   end.
 Definition fits_int32 (z : Z) : bool := (-2147483648 <=? z) && (z <=? 2147483647).
 Definition classify_int (z : Z) : value := if fits_int32 z then JInt z else JInt64 z.
@@ -178,24 +180,27 @@ Definition tok := (Z * value)%type.      (* token.token, token.value *)
 Definition is_punct (c : Z) : bool :=
   (c =? 123) || (c =? 125) || (c =? 91) || (c =? 93) || (c =? 44) || (c =? 58).
 
+(* the switch of readToken, after skipSpace has stopped at (l, r) *)
+Definition token_at (l : Z) (r : list Z) : res (pos * tok) :=
+  let c := peek r in
+  if c =? 0 then Ok (mkPos l r, (0, JNull))
+  else if is_punct c then adv r (fun r1 => Ok (mkPos l r1, (c, JNull)))
+  else if c =? 34 then
+    adv r (fun r1 => bind (str_loop (S (length r1)) l r1 [])
+                          (fun '(l', r', s) => Ok (mkPos l' r', (34, JString s))))
+  else if c =? 116 then
+    if cmp_lit r lit_true then Ok (mkPos l (skipn 4 r), (116, JBool true)) else SyntaxErr l r E_char
+  else if c =? 102 then
+    if cmp_lit r lit_false then Ok (mkPos l (skipn 5 r), (102, JBool false)) else SyntaxErr l r E_char
+  else if c =? 110 then
+    if cmp_lit r lit_null then Ok (mkPos l (skipn 4 r), (110, JNull)) else SyntaxErr l r E_char
+  else if (c =? 45) || is_digit c then
+    bind (num_loop (S (length r)) r [] false) (fun '(r', n, isd) =>
+      Ok (mkPos l r', (35, if isd then JDouble n else classify_int (ref_atoll n))))
+  else SyntaxErr l r E_char.
+
 Definition read_token (p : pos) : res (pos * tok) :=
-  bind (skip_space (S (length (p_rest p))) (p_line p) (p_rest p)) (fun '(l, r) =>
-    let c := peek r in
-    if c =? 0 then Ok (mkPos l r, (0, JNull))
-    else if is_punct c then adv r (fun r1 => Ok (mkPos l r1, (c, JNull)))
-    else if c =? 34 then
-      adv r (fun r1 => bind (str_loop (S (length r1)) l r1 [])
-                            (fun '(l', r', s) => Ok (mkPos l' r', (34, JString s))))
-    else if c =? 116 then
-      if cmp_lit r lit_true then Ok (mkPos l (skipn 4 r), (116, JBool true)) else SyntaxErr l r E_char
-    else if c =? 102 then
-      if cmp_lit r lit_false then Ok (mkPos l (skipn 5 r), (102, JBool false)) else SyntaxErr l r E_char
-    else if c =? 110 then
-      if cmp_lit r lit_null then Ok (mkPos l (skipn 4 r), (110, JNull)) else SyntaxErr l r E_char
-    else if (c =? 45) || is_digit c then
-      bind (num_loop (S (length r)) r [] false) (fun '(r', n, isd) =>
-        Ok (mkPos l r', (35, if isd then JDouble n else classify_int (ref_atoll n))))
-    else SyntaxErr l r E_char).
+  bind (skip_space (S (length (p_rest p))) (p_line p) (p_rest p)) (fun '(l, r) => token_at l r).
 
 (* ---------- HashMap<String,Variant>::append: existing key keeps its place, value replaced ---------- *)
 Fixpoint map_upsert (k : list Z) (v : value) (m : list (list Z * value)) : list (list Z * value) :=
@@ -298,6 +303,23 @@ Fixpoint escape (s : list Z) : list Z :=
   end.
 Definition esc_string (s : list Z) : list Z := 34 :: escape s ++ [34].
 
+(* the element / member loops of appendVariant: indentation, the item, ",\n" between items *)
+Section EmitItems.
+  Variable E : value -> list Z.        (* appendVariant(item, newIndentation, result) *)
+  Variable ni : list Z.                (* newIndentation *)
+  Fixpoint emit_items (l : list value) : list Z :=
+    match l with
+    | [] => []
+    | x :: t => ni ++ E x ++ match t with [] => [] | _ => [44; 10] ++ emit_items t end
+    end.
+  Fixpoint emit_members (m : list (list Z * value)) : list Z :=
+    match m with
+    | [] => []
+    | kx :: t => ni ++ esc_string (fst kx) ++ [58; 32] ++ E (snd kx) ++
+                 match t with [] => [] | _ => [44; 10] ++ emit_members t end
+    end.
+End EmitItems.
+
 Fixpoint emit (v : value) (ind : list Z) : list Z :=
   match v with
   | JNull => lit_null
@@ -309,25 +331,12 @@ Fixpoint emit (v : value) (ind : list Z) : list Z :=
   | JList l =>
     match l with
     | [] => [91; 93]
-    | _ => let ni := ind ++ [9] in
-           [91; 10] ++
-           (fix go (l : list value) : list Z :=
-              match l with
-              | [] => []
-              | x :: t => ni ++ emit x ni ++ match t with [] => [] | _ => [44; 10] ++ go t end
-              end) l ++ [10] ++ ind ++ [93]
+    | _ => [91; 10] ++ emit_items (fun x => emit x (ind ++ [9])) (ind ++ [9]) l ++ [10] ++ ind ++ [93]
     end
   | JMap m =>
     match m with
     | [] => [123; 125]
-    | _ => let ni := ind ++ [9] in
-           [123; 10] ++
-           (fix go (m : list (list Z * value)) : list Z :=
-              match m with
-              | [] => []
-              | (k, x) :: t => ni ++ esc_string k ++ [58; 32] ++ emit x ni ++
-                               match t with [] => [] | _ => [44; 10] ++ go t end
-              end) m ++ [10] ++ ind ++ [125]
+    | _ => [123; 10] ++ emit_members (fun x => emit x (ind ++ [9])) (ind ++ [9]) m ++ [10] ++ ind ++ [125]
     end
   end.
 
